@@ -22,6 +22,7 @@ RULE = (
     "the unique order of 'take the max compound priority ready node' as long as there is no tie. Phase 1 enumerates "
     "ALL 64 edge sets on 4 ordered nodes x priorities in {-1,0,1,2}^4 (16384 cases). non-trivial = some node is "
     "reachable from an ancestor by >= 2 distinct paths (the shape is not a forest); distinct = distinct case JSON."
+    " Round 8-10 additions: reconfigurations carrying one unusable entry at a drawn position or an unusable max_concurrency (the table must follow the priorities the API shows afterwards); an executor for the same selection created before the reconfiguration."
 )
 ASSUMPTIONS = [
     "compound priority of a node = its own priority + priorities of all distinct descendants in the full DAG",
